@@ -53,8 +53,14 @@ class Spec(core.PropSpec):
         if streams:
             n = rw.randint(3, 8)
             tree = {"t": "compose", "items": [C.gen_spec(rw, depth=1, dom="T", keep_only=True, scheduled=False), {"t": "leaf", "name": "KDAdditiveGaussianNoise"}]}
-            w = rw.choice(["xtw", "multiview", "ytw", "semseg", "mix"])
-            if w == "mix":
+            w = rw.choice(["xtw", "multiview", "ytw", "semseg", "mix", "xtw_over_mix"])
+            above_seeded = None
+            if w == "xtw_over_mix":
+                # a seeded transform wrapper above a fused-operation wrapper, read through the jointly loaded path ("x class")
+                seeded = {"w": "mix", "seed": rw.randint(0, 999), "p": 0.5, "alpha": 1.0}
+                above_seeded = {"w": "xtw", "seed": rw.randint(0, 999), "transform": tree}
+                root = "dup"
+            elif w == "mix":
                 # the mixing weight (a continuous Beta draw) is readable from the label vector
                 seeded = {"w": "mix", "seed": rw.randint(0, 999), "p": 1.0, "alpha": rw.choice([0.8, 1.0])}
                 root = "tensor"
@@ -68,12 +74,16 @@ class Spec(core.PropSpec):
                 seeded = {"w": w, "seed": rw.randint(0, 999), "transform": tree}
                 root = "dup"
             stack = {"root": {"kind": root, "n": n, "clobber": {}}, "below": [], "seeded": seeded, "above": []}
+            if above_seeded:
+                stack["above_seeded"] = above_seeded
         else:
             stack = S.gen_stack(rw, seeded=True)
         fam = mode_family(stack["seeded"])
         mode = rw.choice(MODES[fam])
         if streams:
             mode = "class" if stack["seeded"]["w"] == "mix" else S.item_of(stack["seeded"])  # the random item itself
+            if stack.get("above_seeded"):
+                mode = rw.choice(["x class", "class x"])
         K = ro.choice([0, 1, 2, 2, 3, 4])
         epochs = []
         for _ in range(ro.choice([1, 2, 2, 3] + ([4, 5] if tier != "quick" else []))):
@@ -302,7 +312,10 @@ class Spec(core.PropSpec):
             vals = {}
             for i in range(n):
                 try:
-                    if stack["seeded"]["w"] == "mix":
+                    if stack.get("above_seeded"):
+                        smp = ref(i)
+                        vals[i] = h(smp[plan["mode"].split(" ").index("x")])  # identical data below: x differs only through the noise stream
+                    elif stack["seeded"]["w"] == "mix":
                         nz = sorted(float(v) for v in ref(i).flatten().tolist() if v != 0)
                         vals[i] = ("unmixed", i) if len(nz) < 2 else tuple(nz)  # mixing weights of a really mixed label
                     else:
